@@ -341,6 +341,71 @@ pub trait Sut {
     fn iter_select(&self) -> Option<[Option<Item>; 6]> {
         None
     }
+    /// The folding and adapting consumers (`fold_obs`), `k` items in. `None` where palette implements no iteration.
+    fn iter_fold(&self, _k: usize) -> Option<Vec<FoldObs>> {
+        None
+    }
+}
+
+/// One observation of `fold_obs`: the items that came out, and the numbers (counts, lengths, flags).
+pub type FoldObs = (Vec<Item>, Vec<usize>);
+
+/// The provided methods of `Iterator` / `DoubleEndedIterator` that an implementation may override and that the
+/// schedules of `run_sched` do not reach: `reduce` (both argument orders, and behind `rev()`), `try_fold` /
+/// `try_rfold` that break after `k + 1` items and the same iterator used further afterwards, `partition`,
+/// `step_by`, `skip`, `rev().skip().step_by()`, `zip` with its own reverse, `chain`, `take`, `last`, `count`,
+/// `is_sorted_by`. The same function runs over the collection's iterator and over the vector's.
+pub fn fold_obs<I, X>(own: impl Fn() -> I, to: impl Fn(X) -> Item + Copy, k: usize) -> Vec<FoldObs>
+where
+    I: DoubleEndedIterator<Item = X> + ExactSizeIterator,
+    X: Copy,
+{
+    let rank = move |c: &X| sel_rank(&to(*c));
+    let opt = |o: Option<X>| (o.map(to).into_iter().collect::<Vec<_>>(), vec![]);
+    let mut out: Vec<FoldObs> = Vec::new();
+    out.push(opt(own().reduce(|_, b| b)));
+    out.push(opt(own().reduce(|a, _| a)));
+    out.push(opt(own().rev().reduce(|_, b| b)));
+    {
+        let mut it = own();
+        let mut seen = Vec::new();
+        let r = it.try_fold((), |(), c| {
+            seen.push(to(c));
+            if seen.len() > k { Err(()) } else { Ok(()) }
+        });
+        let nums = vec![r.is_err() as usize, it.len()];
+        seen.extend(it.next().map(to));
+        seen.extend(it.next_back().map(to));
+        seen.extend(it.map(to));
+        out.push((seen, nums));
+    }
+    {
+        let mut it = own();
+        let mut seen = Vec::new();
+        let r = it.try_rfold((), |(), c| {
+            seen.push(to(c));
+            if seen.len() > k { Err(()) } else { Ok(()) }
+        });
+        let nums = vec![r.is_err() as usize, it.len()];
+        seen.extend(it.next_back().map(to));
+        seen.extend(it.next().map(to));
+        seen.extend(it.rev().map(to));
+        out.push((seen, nums));
+    }
+    {
+        let (a, b): (Vec<X>, Vec<X>) = own().partition(|c| rank(c) == 0);
+        let n = a.len();
+        out.push((a.into_iter().chain(b).map(to).collect(), vec![n]));
+    }
+    out.push((own().step_by(k + 1).map(to).collect(), vec![]));
+    out.push((own().skip(k).map(to).collect(), vec![own().skip(k).len()]));
+    out.push((own().rev().skip(k).step_by(2).map(to).collect(), vec![]));
+    out.push((own().zip(own().rev()).flat_map(|(a, b)| [to(a), to(b)]).collect(), vec![own().zip(own().skip(k)).len()]));
+    out.push((own().chain(own()).skip(k).map(to).collect(), vec![own().chain(own()).count()]));
+    out.push((own().take(k).map(to).collect(), vec![own().take(k).len()]));
+    out.push((own().last().map(to).into_iter().chain(own().rev().last().map(to)).collect(), vec![own().count(), own().rev().count()]));
+    out.push((vec![], vec![own().is_sorted_by(|a, b| rank(a) <= rank(b)) as usize, own().rev().is_sorted_by(|a, b| rank(a) <= rank(b)) as usize]));
+    out
 }
 
 /// A coarse rank of an item: three classes, so that maxima and minima are never unique in a collection of any size.
@@ -605,6 +670,9 @@ macro_rules! soa {
                         own().rev().max_by(|a, b| rank(a).cmp(&rank(b))).map(to_item),
                         own().rev().min_by(|a, b| rank(a).cmp(&rank(b))).map(to_item),
                     ])
+                }
+                fn iter_fold(&self, k: usize) -> Option<Vec<FoldObs>> {
+                    Some(fold_obs(|| self.0.clone().into_iter(), to_item, k))
                 }
                 fn iter_mut<'a>(&'a mut self) -> Option<Box<dyn It + 'a>> {
                     Some(Box::new(WriteIt(
@@ -874,6 +942,9 @@ macro_rules! soa {
                         own().rev().max_by(|a, b| rank(a).cmp(&rank(b))).map(to_item_a),
                         own().rev().min_by(|a, b| rank(a).cmp(&rank(b))).map(to_item_a),
                     ])
+                }
+                fn iter_fold(&self, k: usize) -> Option<Vec<FoldObs>> {
+                    Some(fold_obs(|| self.0.clone().into_iter(), to_item_a, k))
                 }
                 fn iter_mut<'a>(&'a mut self) -> Option<Box<dyn It + 'a>> {
                     Some(Box::new(WriteIt(self.0.iter_mut(), rd_a, wr_a)))
